@@ -212,14 +212,16 @@ def random_directions_within_bounds(num_pts, delta, lower, upper):
 def apply_scaling(x_raw, scaling_changes):
     if scaling_changes is None:
         return x_raw
-    shift, scale = scaling_changes
+    shift, scale = scaling_changes[:2]
     return (x_raw - shift) / scale
 
 
 def remove_scaling(x_scaled, scaling_changes):
     if scaling_changes is None:
         return x_scaled
-    shift, scale = scaling_changes
+    shift, scale = scaling_changes[:2]
+    if len(scaling_changes) > 2:
+        return np.minimum(shift + x_scaled * scale, scaling_changes[2])
     return shift + x_scaled * scale
 
 
